@@ -289,6 +289,11 @@ func valueCorpus() []string {
 		"fn main() { let a = 5; let f = fn() -> int { a = a + 1; a }; println(f()); println(a); }",
 		"$S = { n: int };\nfn get(s: $S, k: int) -> int { s.n + k }\nfn main() { println(1 + get(2)); println([get(1), get(2)]); }",
 		"fn main() { let e = 1; try { throw(\"x\"); } catch e { println(e.message); } println(e); }",
+		// expressions that generate no value where one is consumed, values nobody consumes
+		"fn f() {}\nfn main() { let v = { println(1); }; let w = v; let l = [f()]; let a = null; a = f(); let o = new { a: f() }; println(f() == null, l.len(), o); }",
+		"fn main() { let n = null; let c = 0; for i in 0..700 { null; n; match i { 0 => { c += 1; }, _ => { c += 2; }, }; let v = match i { 0 => 1, _ => 2, }; c += v; } println(c); }",
+		"fn f() {}\nfn g() { return f(); }\nfn h() { f() }\nfn main() { for i in 0..700 { g(); h(); f(); if i > 5 { f(); } } println(\"ok\"); }",
+		"fn k() -> int { let x = { return 1; }; 2 }\nfn main() { let t = try { throw(\"a\"); 1 } catch e { 2 }; let u = try { 3 } catch e { 4 }; println(t, u, k()); }",
 	)
 	return out
 }
